@@ -122,7 +122,7 @@ fn random_entry_points(src: &mut Src, obs: &mut Obs) -> Res {
 // histories
 
 /// a pool of documents and queries built to collide
-fn gen_pool(src: &mut Src) -> (Vec<Value>, Vec<String>) {
+fn gen_pool(src: &mut Src) -> (Vec<Value>, Vec<String>, Vec<Vec<bool>>) {
     let cfg = cfg12();
     let nd = 2 + src.below(3);
     let mut docs: Vec<J> = (0..nd).map(|_| gen_doc(src, &cfg).sorted()).collect();
@@ -178,7 +178,25 @@ fn gen_pool(src: &mut Src) -> (Vec<Value>, Vec<String>) {
         let base = queries[src.below(k)].clone();
         queries.push(if i == 0 { format!(" {}", base) } else { format!("{}\n", base) });
     }
-    (docs.iter().map(|d| d.to_value()).collect(), queries)
+    // pairs whose reference evaluation is not cheap (a query generated for a small document meeting the
+    // deep one) are not used: the checks must stay far away from the watchdog on the unchanged tree
+    let allowed: Vec<Vec<bool>> = docs
+        .iter()
+        .map(|d| {
+            queries
+                .iter()
+                .map(|q| match crate::recog::parse_ast(q) {
+                    Some(ast) => {
+                        crate::oracle::reset();
+                        let n = crate::oracle::eval(&ast, d, &crate::oracle::Quirks::strict()).len();
+                        !crate::oracle::take_gave_up() && n <= 2_000
+                    }
+                    None => true,
+                })
+                .collect()
+        })
+        .collect();
+    (docs.iter().map(|d| d.to_value()).collect(), queries, allowed)
 }
 
 /// the reference for "no history": the pair evaluated as the first action of a fresh process
@@ -212,12 +230,14 @@ pub fn once_main() -> i32 {
 }
 
 fn random_history(src: &mut Src, obs: &mut Obs) -> Res {
-    let (docs, queries) = gen_pool(src);
+    let (docs, queries, allowed) = gen_pool(src);
+    let cheap = queries.iter().position(|q| q == "$..a").unwrap_or(0);
     let n = 8 + src.below(33);
     let mut hist: Vec<(usize, usize)> = vec![];
     for _ in 0..n {
         // repeats are likely: small index ranges
-        hist.push((src.below(docs.len()), src.below(queries.len())));
+        let (d, q) = (src.below(docs.len()), src.below(queries.len()));
+        hist.push((d, if allowed[d][q] { q } else { cheap }));
     }
     // distinct pairs -> fresh-process reference
     let mut pairs: Vec<(usize, usize)> = hist.clone();
@@ -311,11 +331,16 @@ fn random_history(src: &mut Src, obs: &mut Obs) -> Res {
 // schedules
 
 fn random_threads(src: &mut Src, obs: &mut Obs) -> Res {
-    let (docs, queries) = gen_pool(src);
+    let (docs, queries, allowed) = gen_pool(src);
+    let cheap = queries.iter().position(|q| q == "$..a").unwrap_or(0);
     let nthreads = *src.pick(&[2usize, 3, 4, 8, 16]);
     let rounds = 20 + src.below(40);
     // sequential reference
-    let seq: Vec<Vec<Value>> = docs.iter().map(|d| queries.iter().map(|q| result_of(d, q)).collect()).collect();
+    let seq: Vec<Vec<Value>> = docs
+        .iter()
+        .enumerate()
+        .map(|(di, d)| queries.iter().enumerate().map(|(qi, q)| if allowed[di][qi] { result_of(d, q) } else { Value::Null }).collect())
+        .collect();
     obs.eval((docs.len() * queries.len()) as u64);
     let parsed: Shared<Vec<Option<JpQuery>>> = Shared(queries.iter().map(|q| guarded(|| parse_json_path(q)).ok().and_then(|r| r.ok())).collect());
     // per-thread plan drawn from the choice sequence: (doc, query, yield?) triples
@@ -329,7 +354,8 @@ fn random_threads(src: &mut Src, obs: &mut Obs) -> Res {
                         let qi = queries.iter().position(|q| q == if (t / 2) % 2 == 0 { "$..a" } else { "$..*" }).unwrap_or(0);
                         (docs.len() - 1, qi, src.chance(1, 4))
                     } else {
-                        (src.below(docs.len()), src.below(queries.len()), src.chance(1, 4))
+                        let (d, q) = (src.below(docs.len()), src.below(queries.len()));
+                        (d, if allowed[d][q] { q } else { cheap }, src.chance(1, 4))
                     }
                 })
                 .collect()
@@ -432,5 +458,6 @@ pub fn prop() -> Prop {
         direct: Some(direct),
         selftest: None,
         fuzz: None,
+        insertion_order_stage: false,
     }
 }
